@@ -179,5 +179,28 @@ def main():
     sys.exit(rc)
 
 
+def guarded_main():
+    """An internal error of the machinery (a harness that no longer understands the tree, a parser
+    surprised by new output, ...) leaves the property unshown: it is reported as such, with the
+    traceback as the replay, never as a silent non-zero exit."""
+    try:
+        main()
+    except SystemExit:
+        raise
+    except BaseException:
+        import traceback
+        pid = sys.argv[1] if len(sys.argv) > 1 else "?"
+        tb = traceback.format_exc()
+        path = write_replay(pid, "internal-error", "# the check itself failed; the property is not shown to hold on this tree\n" + tb)
+        print("VIOLATION property=%s replay=%s no-failing-input-found" % (pid, path))
+        try:
+            props.write_evidence(dict(property_id=pid, tier=os.environ.get("VERIF_TIER", "quick"), seed=int(os.environ.get("VERIF_SEED", "1")),
+                                      level=props.PROPS.get(pid, {}).get("level", "proof"), coverage={"internal_error": tb.strip().split("\n")[-1]},
+                                      assumptions=[], wall_s=0.0, violations=1))
+        except Exception:
+            pass
+        sys.exit(1)
+
+
 if __name__ == "__main__":
-    main()
+    guarded_main()
